@@ -209,10 +209,10 @@ public:
 
 		// can't std::forward<Args>(args) in GetEvent::getEvent because the pass by value arguments will be moved to getEvent
 		// then the other std::forward<Args>(args) to directDispatch will get empty values.
-		directDispatch(
-			GetEvent::getEvent(args...),
-			std::forward<Args>(args)...
-		);
+		// The event must be obtained before the arguments are forwarded: the evaluation order
+		// of function arguments is unspecified and the forwarding may move the arguments.
+		const Event e(GetEvent::getEvent(args...));
+		directDispatch(e, std::forward<Args>(args)...);
 	}
 
 	template <typename T>
@@ -222,10 +222,8 @@ public:
 
 		using GetEvent = typename SelectGetEvent<Policies_, EventType_, HasFunctionGetEvent<Policies_, T &&, Args...>::value>::Type;
 
-		directDispatch(
-			GetEvent::getEvent(std::forward<T>(first), args...),
-			std::forward<Args>(args)...
-		);
+		const Event e(GetEvent::getEvent(std::forward<T>(first), args...));
+		directDispatch(e, std::forward<Args>(args)...);
 	}
 
 	// Bypass any getEvent policy. The first argument is the event type.
